@@ -107,3 +107,16 @@ PROPS["C09"] = {
     "assumptions": COMMON_ASSUMPTIONS + ["the open second at each lifetime boundary is judged 'either' (the signed timestamp has one-second granularity)",
                                           "issuer skew is produced with the repository's own mockable pkg/clock while the issuing request runs alone"],
 }
+
+PROPS["C03"] = {
+    "level": "exploration",
+    "quick_runs": 1200, "quick_budget_s": 150, "thorough_budget_s": 600,
+    "rule": "one run = one world (csrf-per-request x encode-state x PKCE none/S256/plain x store x cookie-expire 0/finite) + 2-4 overlapping logins started by 1-2 browsers "
+            "(via /start, a protected path, /sign_in) + phase 1: honest completions through the real jars in a tape-chosen order + phase 2: 25-50 mis-delivered pairings "
+            "{state: own, one nonce character changed, last character -> base64 sibling, CR/LF/=/NUL inserted, truncated, redirect part edited, nonce of another login, garbage, "
+            "upper-cased, other encoding} x {cookie: own, another login's, value moved under another name, absent, one character changed, re-signed with another secret, "
+            "truncated/extended, two under one name, value under session-cookie names}; oracle: session cookie issued <=> intact state of login j AND intact CSRF cookie of login j; "
+            "non-trivial = at least two outstanding logins; distinct = distinct event hash",
+    "level_text": "seeded search over multi-login, multi-browser message mis-delivery (state <-> cookie pairings) and completion orders",
+    "assumptions": COMMON_ASSUMPTIONS + ["'both cookies under one name' asserts the safety direction only; an edited redirect part with intact nonce is judged 'either' (C06 re-validates it)"],
+}
